@@ -412,6 +412,61 @@ impl<ChannelSigner: EcdsaChannelSigner> OnchainTxHandler<ChannelSigner> {
 	}
 }
 
+#[cfg(feature = "verif_hooks")]
+impl<ChannelSigner: EcdsaChannelSigner> OnchainTxHandler<ChannelSigner> {
+	/// Verification hook (add-only, C06/C07 package layer): the package bookkeeping as four
+	/// tokens `pending claimable events locked` (each `-` when empty, items joined by `;`):
+	/// pending `id8,<package dump>` sorted by claim id; claimable `txid8:vout=id8@height` sorted;
+	/// events in vector order `C/id8/txid8/height` or `X/txid8/height/<package dump>`; locked
+	/// `locktime/<package dump>` in map / vector order.
+	pub(crate) fn verif_pkg_dump(&self) -> alloc::string::String {
+		use alloc::format;
+		use alloc::string::String;
+		let id8 = |id: &ClaimId| -> String {
+			id.0[..4].iter().map(|b| format!("{:02x}", b)).collect::<Vec<_>>().join("")
+		};
+		let tx8 = |t: &Txid| -> String { format!("{}", t)[..8].into() };
+		let join = |v: Vec<String>| if v.is_empty() { String::from("-") } else { v.join(";") };
+		let mut pend: Vec<(ClaimId, String)> = self
+			.pending_claim_requests
+			.iter()
+			.map(|(id, p)| (*id, format!("{},{}", id8(id), p.verif_dump())))
+			.collect();
+		pend.sort_by(|a, b| a.0 .0.cmp(&b.0 .0));
+		let mut claimable: Vec<(BitcoinOutPoint, String)> = self
+			.claimable_outpoints
+			.iter()
+			.map(|(o, (id, h))| (*o, format!("{}:{}={}@{}", tx8(&o.txid), o.vout, id8(id), h)))
+			.collect();
+		claimable.sort_by(|a, b| a.1.cmp(&b.1));
+		let events: Vec<String> = self
+			.onchain_events_awaiting_threshold_conf
+			.iter()
+			.map(|e| match &e.event {
+				OnchainEvent::Claim { claim_id } => {
+					format!("C/{}/{}/{}", id8(claim_id), tx8(&e.txid), e.height)
+				},
+				OnchainEvent::ContentiousOutpoint { package } => {
+					format!("X/{}/{}/{}", tx8(&e.txid), e.height, package.verif_dump())
+				},
+			})
+			.collect();
+		let mut locked: Vec<String> = Vec::new();
+		for (lt, ps) in self.locktimed_packages.iter() {
+			for p in ps.iter() {
+				locked.push(format!("{}/{}", lt, p.verif_dump()));
+			}
+		}
+		format!(
+			"{} {} {} {}",
+			join(pend.into_iter().map(|x| x.1).collect()),
+			join(claimable.into_iter().map(|x| x.1).collect()),
+			join(events),
+			join(locked)
+		)
+	}
+}
+
 const SERIALIZATION_VERSION: u8 = 1;
 const MIN_SERIALIZATION_VERSION: u8 = 1;
 
@@ -1062,6 +1117,14 @@ impl<ChannelSigner: EcdsaChannelSigner> OnchainTxHandler<ChannelSigner> {
 		};
 		let mut bump_candidates = new_hash_map();
 		if !txn_matched.is_empty() { maybe_log_intro(); }
+		#[cfg(feature = "verif_hooks")]
+		{
+			let txs: Vec<alloc::string::String> = txn_matched.iter().map(|tx| alloc::format!("{}/{}",
+				&alloc::format!("{}", tx.compute_txid())[..8],
+				tx.input.iter().map(|i| alloc::format!("{}:{}", &alloc::format!("{}", i.previous_output.txid)[..8], i.previous_output.vout)).collect::<Vec<_>>().join("+"))).collect();
+			crate::ln::verif_hooks::pkgtrace::push(alloc::format!("pre {} {} {} {}", conf_height, cur_height,
+				self.verif_pkg_dump(), if txs.is_empty() { alloc::string::String::from("-") } else { txs.join(";") }));
+		}
 		for tx in txn_matched {
 			// Scan all input to verify is one of the outpoint spent is of interest for us
 			let mut claimed_outputs_material = Vec::new();
@@ -1202,6 +1265,15 @@ impl<ChannelSigner: EcdsaChannelSigner> OnchainTxHandler<ChannelSigner> {
 			}
 		}
 
+		#[cfg(feature = "verif_hooks")]
+		{
+			let mut bc: Vec<(ClaimId, alloc::string::String)> = bump_candidates.iter().map(|(id, p): (&ClaimId, &PackageTemplate)| (*id, alloc::format!("{},{}",
+				id.0[..4].iter().map(|b| alloc::format!("{:02x}", b)).collect::<Vec<_>>().join(""), p.verif_dump()))).collect();
+			bc.sort_by(|a, b| a.0 .0.cmp(&b.0 .0));
+			let bc: Vec<alloc::string::String> = bc.into_iter().map(|x| x.1).collect();
+			crate::ln::verif_hooks::pkgtrace::push(alloc::format!("mid {} {}", self.verif_pkg_dump(),
+				if bc.is_empty() { alloc::string::String::from("-") } else { bc.join(";") }));
+		}
 		// Build, bump and rebroadcast tx accordingly
 		if !bump_candidates.is_empty() {
 			maybe_log_intro();
@@ -1238,8 +1310,13 @@ impl<ChannelSigner: EcdsaChannelSigner> OnchainTxHandler<ChannelSigner> {
 					request.set_timer(new_timer);
 					request.set_feerate(new_feerate);
 				}
+				#[cfg(feature = "verif_hooks")]
+				crate::ln::verif_hooks::pkgtrace::push(alloc::format!("issued {} {}",
+					claim_id.0[..4].iter().map(|b| alloc::format!("{:02x}", b)).collect::<Vec<_>>().join(""), new_timer));
 			}
 		}
+		#[cfg(feature = "verif_hooks")]
+		crate::ln::verif_hooks::pkgtrace::push(alloc::string::String::from("end"));
 	}
 
 	#[rustfmt::skip]
